@@ -1215,12 +1215,22 @@ fn cmd_codec_random(args: &[String]) {
     let mut emit = |w: &mut NdjsonWriter, which: &str, label: String, file: &[u8], must_fail: bool| {
         let mut r = cli(which, file);
         let m = r.as_object_mut().unwrap();
+        // strict: the file is malformed beyond argument (truncated, counts that cannot be true, instructions outside the basis,
+        // a block size of 0 or above the 65536 maximum): "exit with a reported error" is then a clause of C20 itself.  A block
+        // size inside 1..=65536 that is merely not a power of two stays a conformance matter.
+        let in_range_size = label.split("block_size=").nth(1).and_then(|v| v.split(' ').next().and_then(|x| x.parse::<u64>().ok())).map_or(false, |v| v >= 1 && v <= 65536);
+        let strict = must_fail && !in_range_size;
         m.insert("ev".into(), json!("cli")); m.insert("cmd".into(), json!(which)); m.insert("corruption".into(), json!(label)); m.insert("must_fail".into(), json!(must_fail));
+        m.insert("strict".into(), json!(strict));
         w.write(&r);
     };
     let put = |f: &[u8], at: usize, bytes: &[u8]| { let mut v = f.to_vec(); v[at..at + bytes.len()].copy_from_slice(bytes); v };
     // signature file layout: block_size u64 | file_size u64 | count u64 | (index u32, weak u32, strong [32])*
-    for bs in [0u64, 1, 511, 1000, 2047, 131072, 1 << 63, u64::MAX] { emit(&mut w, "delta", format!("sig.block_size={bs}"), &put(&sig_bytes, 0, &bs.to_le_bytes()), true); }
+    for bs in [0u64, 1, 511, 1000, 2047, 131072, 1 << 63, u64::MAX,
+               // a valid size in the low half only (the field is 8 bytes wide; some code paths carry it as u32)
+               (1 << 32) + 4096, (1 << 32) + 2048, (1 << 63) + 4096, 0xdead_beef_0000_0200, (1 << 33) + 65536] {
+        emit(&mut w, "delta", format!("sig.block_size={bs}"), &put(&sig_bytes, 0, &bs.to_le_bytes()), true);
+    }
     for bs in [512u64, 1024, 65536] { emit(&mut w, "delta", format!("sig.block_size={bs} (valid, different)"), &put(&sig_bytes, 0, &bs.to_le_bytes()), false); }
     for fs in [0u64, 1, u64::MAX] { emit(&mut w, "delta", format!("sig.file_size={fs}"), &put(&sig_bytes, 8, &fs.to_le_bytes()), false); }
     let nblk = lib_sig.blocks.len() as u64;
